@@ -103,6 +103,71 @@ def flatten(t, opname):
     return {t}
 
 
+RING_OPS = ('add', 'sub', 'mul', 'neg')
+
+
+def ring_nodes(ts):
+    """{(op name, type, frozenset of argument ids)} of the ring operation nodes of the terms"""
+    out = set()
+    seen = set()
+    st = [t for t in ts if isinstance(t, tm.T)]
+    while st:
+        t = st.pop()
+        if t.id in seen:
+            continue
+        seen.add(t.id)
+        if ':' in t.op:
+            nm, ty = t.op.rsplit(':', 1)
+            if nm in RING_OPS:
+                out.add((nm, ty, tuple(sorted(x.id for x in t.args if isinstance(x, tm.T)))))
+        st.extend(x for x in t.args if isinstance(x, tm.T))
+    return out
+
+
+def overflow_sites(panics):
+    """{(op name, type, argument ids)} of the overflow panic sites; other sites -> second component"""
+    out = set()
+    other = []
+    for p in panics:
+        c = p.cond
+        if c is tm.FALSE:
+            continue
+        # the overflow condition is the last conjunct (earlier ones are 'no earlier panic')
+        cands = [c] + ([x for x in c.args if isinstance(x, tm.T)] if c.op == 'and' else [])
+        hit = None
+        for x in cands:
+            if ':' in x.op and x.op.split(':', 1)[0].endswith('.ovf'):
+                nm, ty = x.op.split(':', 1)
+                hit = (nm[:-4], ty, tuple(sorted(y.id for y in x.args if isinstance(y, tm.T))))
+        if hit is None and p.kind == 'assert:overflow_neg':
+            for x in cands:
+                if x.op.startswith('eq:') and len(x.args) == 2 and tm.is_const(x.args[1]):
+                    hit = ('neg', x.op.split(':', 1)[1], (x.args[0].id,))
+        if hit:
+            out.add(hit)
+        else:
+            other.append(p)
+    return out, other
+
+
+def panic_completeness(values, panics, expect_overflow):
+    """with overflow checks on, an operation written with the panicking operators has exactly one overflow site per ring operation of its result
+    (and one written with wrapping / saturating / checked operators has none): -> problem text or None"""
+    nodes = ring_nodes(values)
+    sites, _other = overflow_sites(panics)
+    if not expect_overflow:
+        return None if not sites else 'a non-panicking operation has %d overflow panic site(s)' % len(sites)
+    missing = nodes - sites
+    extra = sites - nodes
+    if missing:
+        nm, ty, _ = sorted(missing)[0]
+        return 'the %s:%s in the result has no overflow panic site (it silently wraps where the primitive operator panics)' % (nm, ty)
+    if extra:
+        nm, ty, _ = sorted(extra)[0]
+        return 'an overflow panic site of %s:%s does not belong to any operation of the result' % (nm, ty)
+    return None
+
+
 def check_reduction(I, F, name, e, views, r, it):
     """-> (verdict, message)"""
     bits = int(e[1:]) if e != 'usize' else 8 * F.ptr_size
@@ -215,10 +280,39 @@ def check_reduction(I, F, name, e, views, r, it):
         need = set(x for x in a + b)
         if atoms != need:
             return ('VIOLATION', 'None/Some decision depends on %d of %d operand lanes' % (len(atoms), len(need)))
+        # exact shape: a chain of checked_add over the abs_diff of every lane, None as soon as one step is None, payload = last step
+        ad_ops = set(x.op for x in ad)
+        allowed = {'checked_add:' + uty, 'some_val', 'is_some', 'ite', 'uninit', 'and', 'not', 'atom', 'c'} | ad_ops
+        ops = {}
+        seen = set()
+
+        def walk(t):
+            if t.id in seen:
+                return
+            seen.add(t.id)
+            ops.setdefault(t.op, set()).add(t)
+            for x in t.args:
+                if isinstance(x, tm.T):
+                    walk(x)
+        walk(d)
+        for (_sz, t_) in [c for o, c in res.cells.items() if isinstance(o, int)]:
+            walk(t_)
+        foreign = sorted(o for o in ops if o not in allowed)
+        if foreign:
+            return ('VIOLATION', 'checked_manhattan_distance uses %s; expected only checked_add over abs_diff' % foreign)
+        steps = ops.get('checked_add:' + uty, set())
+        if len(steps) != n - 1:
+            return ('VIOLATION', 'checked_manhattan_distance has %d checked_add steps, expected %d' % (len(steps), n - 1))
+        if set(t_ for o_ in ad_ops for t_ in ops.get(o_, set())) != set(ad):
+            return ('VIOLATION', 'checked_manhattan_distance does not add abs_diff of exactly every lane once')
+        gates = set(x.args[0] for x in ops.get('is_some', set()))
+        if gates != steps:
+            return ('VIOLATION', 'the Some/None decision does not test every checked_add step')
         return ('HOLDS', '')
     return (None, 'not a reduction')
 
 
+RING_REDUCTIONS = {'dot', 'length_squared', 'distance_squared', 'element_sum', 'element_product', 'perp_dot', 'dot_into_vec', 'cross', 'perp', 'rotate', 'manhattan_distance'}
 REDUCTIONS = {'is_negative_bitmask', 'perp', 'dot', 'length_squared', 'distance_squared', 'element_sum', 'element_product', 'perp_dot', 'dot_into_vec', 'cross',
               'rotate', 'min_element', 'max_element', 'min_position', 'max_position', 'manhattan_distance', 'chebyshev_distance',
               'checked_manhattan_distance'}
@@ -251,9 +345,15 @@ def run(ctx):
             body = F.body(it['key'])
             views = [ArgView(F, r, i, body['locals'][i + 1]) for i in range(body['argc'])]
             I = r.interp
+            root_panics = list(r.panics)       # the oracle calls below append the primitive's own sites to the same list
             if mname in REDUCTIONS:
                 n_red += 1
                 v, msg = check_reduction(I, F, mname, e, views, r, it)
+                if v == 'HOLDS' and overflow_on and mname in RING_REDUCTIONS:
+                    vals = [r.ret] if isinstance(r.ret, tm.T) else (value_lanes(F, r.ret, r.ret_ty) or [])
+                    why = panic_completeness(vals, root_panics, True)
+                    if why:
+                        v, msg = 'VIOLATION', why
                 if v == 'HOLDS':
                     ctx.holds('R-REDUCE', cfg, name)
                 elif v == 'VIOLATION':
@@ -306,9 +406,34 @@ def run(ctx):
                     ctx.violation('R-LIFT', cfg, name, {'file': it['file'], 'line': it['line'],
                                                          'problem': 'lane schema %s is not the primitive %s = %s' % (tm.show(lanes[0], 0, 5)[:200], src, tm.show(exp, 0, 5)[:200])})
                     continue
-            # panic sites: one per lane at most, conditions over that lane only
+            # panic sites: exactly the primitive's own, once per lane
             bad_panic = None
-            for p in r.panics:
+            oracle_panics = r.panics[len(root_panics):]
+
+            def _core(c):
+                # the failing condition itself (earlier conjuncts only say that no earlier site fired)
+                return c.args[-1] if c.op == 'and' else c
+            got_set = set(_core(p.cond) for p in root_panics if p.cond is not tm.FALSE)
+            exp_set = set()
+            nl = len(lanes)
+            for p in oracle_panics:
+                if p.cond is tm.FALSE:
+                    continue
+                for j in range(nl):
+                    mp = {}
+                    for v in views:
+                        if v.kind in ('vec', 'mask') and v.lanes and j < len(v.lanes) and v.lanes[0] is not None:
+                            mp[v.lanes[0]] = v.lanes[j]
+                    exp_set.add(_core(tm.subst(p.cond, mp)))
+            shift_only = (not exp_set) and got_set and all(p.kind == 'assert:overflow' and p.detail in ('Shl', 'Shr') for p in root_panics if p.cond is not tm.FALSE) \
+                and len(got_set) <= nl and tr in ('Shl', 'Shr', 'ShlAssign', 'ShrAssign')
+            if mname not in CMP and mname not in ('select', 'clamp', 'min', 'max') and got_set != exp_set and not shift_only:
+                miss, extra = exp_set - got_set, got_set - exp_set
+                if miss:
+                    bad_panic = 'the primitive panics when %s, this operation does not (it silently continues)' % tm.show(sorted(miss, key=lambda t: t.id)[0], 0, 4)[:160]
+                else:
+                    bad_panic = 'panics when %s, the primitive does not' % tm.show(sorted(extra, key=lambda t: t.id)[0], 0, 4)[:160]
+            for p in root_panics:
                 at = tm.atoms_of(p.cond)
                 lane_sets = []
                 for j in range(len(lanes)):
@@ -327,6 +452,16 @@ def run(ctx):
             ctx.holds('R-LIFT', cfg, name, src)
             if n_lift % 900 == 5:
                 ctx.sample({'config': cfg, 'fn': name, 'lane0': tm.show(lanes[0], 0, 5)[:160], 'primitive': src, 'panic_sites': len(r.panics)})
+        # Sum / Product over iterators are left folds of + / * from ZERO / ONE (generic bodies, rules/fold.py)
+        import fold
+
+        def _done(rule, name, bad, it):
+            if bad:
+                ctx.violation(rule, cfg, name, {'file': it['file'], 'line': it['line'], 'problem': bad})
+            else:
+                ctx.holds(rule, cfg, name)
+        nfold = fold.check_folds(ctx, cfg, F, H, lambda tn: 'int' if re.match(r'^(I|U)(8|16|64)?Vec[234]$|^USizeVec[234]$|^ISizeVec[234]$', tn) else None, _done)
+        ctx.floor('Sum / Product impls of integer vectors (%s)' % cfg, nfold, 100)
         ctx.floor('lane-wise integer operations (%s)' % cfg, n_lift, FLOOR_LIFT)
         ctx.floor('integer reductions (%s)' % cfg, n_red, FLOOR_REDUCE)
         ctx.floor('integer vector types (%s)' % cfg, len([t for t in types if re.match(r'^\w+::\w+::\w+Vec[234]$', t)]), 27)
